@@ -363,3 +363,103 @@ func posOf(ins ssa.Instruction) token.Pos {
 	}
 	return token.NoPos
 }
+
+// ---------- comparison normal form ----------
+
+// relOnEdge: for a comparison atom and the truth of the atom on an edge, returns the relation known to hold
+// between X and Y on that edge, as one of "<", "<=", "==", "!=", ">", ">=".
+func relOnEdge(atom ssa.Value, holds bool) (x ssa.Value, rel string, y ssa.Value, ok bool) {
+	bo, isB := atom.(*ssa.BinOp)
+	if !isB {
+		return nil, "", nil, false
+	}
+	var r string
+	switch bo.Op {
+	case token.LSS:
+		r = "<"
+	case token.LEQ:
+		r = "<="
+	case token.GTR:
+		r = ">"
+	case token.GEQ:
+		r = ">="
+	case token.EQL:
+		r = "=="
+	case token.NEQ:
+		r = "!="
+	default:
+		return nil, "", nil, false
+	}
+	if !holds {
+		r = map[string]string{"<": ">=", "<=": ">", ">": "<=", ">=": "<", "==": "!=", "!=": "=="}[r]
+	}
+	return bo.X, r, bo.Y, true
+}
+
+func flipRel(r string) string {
+	return map[string]string{"<": ">", "<=": ">=", ">": "<", ">=": "<=", "==": "==", "!=": "!="}[r]
+}
+
+func constInt64(v ssa.Value) (int64, bool) {
+	c, ok := stripConvs(v).(*ssa.Const)
+	if !ok || c.Value == nil || c.Value.Kind() != constant.Int {
+		return 0, false
+	}
+	return constant.Int64Val(c.Value)
+}
+
+// boundOnEdge: on this edge, is `sel(v)` known to satisfy `v rel k` for some constant k? Returns the relation with v on the left.
+func boundOnEdge(atom ssa.Value, holds bool, sel func(ssa.Value) bool) (rel string, k int64, ok bool) {
+	x, r, y, ok := relOnEdge(atom, holds)
+	if !ok {
+		return "", 0, false
+	}
+	if sel(stripConvs(x)) {
+		if c, isC := constInt64(y); isC {
+			return r, c, true
+		}
+	}
+	if sel(stripConvs(y)) {
+		if c, isC := constInt64(x); isC {
+			return flipRel(r), c, true
+		}
+	}
+	return "", 0, false
+}
+
+// impliesAtMost: (v rel k) implies v <= m, for integers.
+func impliesAtMost(rel string, k, m int64) bool {
+	switch rel {
+	case "<":
+		return k-1 <= m
+	case "<=", "==":
+		return k <= m
+	}
+	return false
+}
+
+// impliesAtLeast: (v rel k) implies v >= m.
+func impliesAtLeast(rel string, k, m int64) bool {
+	switch rel {
+	case ">":
+		return k+1 >= m
+	case ">=", "==":
+		return k >= m
+	}
+	return false
+}
+
+// impliesNonZeroUnsigned: (v rel k) implies v != 0 for an unsigned v.
+func impliesNonZeroUnsigned(rel string, k int64) bool {
+	switch rel {
+	case "!=":
+		return k == 0
+	case ">":
+		return k >= 0
+	case ">=":
+		return k >= 1
+	case "==":
+		return k != 0
+	}
+	return false
+}
